@@ -1,4 +1,5 @@
 import Heathcliff.Proofs.C02X
+import Heathcliff.Proofs.C02S
 import Heathcliff.Proofs.C02W
 import Heathcliff.Proofs.C02V
 import Heathcliff.Proofs.C02K
@@ -164,6 +165,45 @@ theorem bgvDecode_balanced_poly : type_of% @HC.bgvDecode_balanced_poly := @HC.bg
 /-- `CtCanon` is what the model's validator `ctValid` (`Ciphertext::is_valid_for`) establishes for a non-empty ciphertext -/
 theorem CtCanon_of_ctValid : type_of% @HC.CtCanon.of_ctValid := @HC.CtCanon.of_ctValid
 
+
+/-! ### squaring: the model's OWN squaring routines (`bgvSquare`, `ckksSquare`: size-2 fast path `c0², c0·c1 + c0·c1, c1²`, fallback to the
+    product routine for every other size — mirrors of `bgv_square` / `ckks_square`, which the driver now runs for `ct_op square`) are the
+    products of the ciphertext with itself; every `_spec` / `_phase` theorem of the product transfers (Heathcliff/Proofs/C02S.lean) -/
+
+/-- S1 (BGV): `bgvSquare l x = bgvMultiply l x x` for EVERY canonical ciphertext `x` (sizes 2..16, either representation; refusals
+    included: coefficient form, result size 2n − 1 > 16).  Hypotheses: the moduli are well-formed word moduli (`c02v_QsWF`: what
+    `Modulus::new` builds — Barrett reduction is exact), the ciphertext is canonical (`CtCanon`: what `is_valid_for` establishes) — needed
+    because the fast path computes `c0·c1 + c0·c1` where the product routine computes `(0 + c0·c1) + c1·c0`: the two agree as VALUES only
+    on reduced residues and equal component lengths. -/
+theorem bgvSquare_eq : type_of% @HC.bgvSquare_eq := @HC.bgvSquare_eq
+
+/-- S1 (CKKS / dyadic part): `ckksSquare l x = ctMultiplyDyadic l x x` for every canonical ciphertext -/
+theorem ckksSquare_eq : type_of% @HC.ckksSquare_eq := @HC.ckksSquare_eq
+
+/-- S2 residues: the square of a canonical NTT-form ciphertext of size n ≤ 8 succeeds, has 2n − 1 canonical polynomials, and residue
+    (i, j) of polynomial k is Σ_{x + y = k} a_x[i][j] · a_y[i][j] mod q_i -/
+theorem ckksSquare_spec : type_of% @HC.ckksSquare_spec := @HC.ckksSquare_spec
+
+/-- S2 phase: phase(square x) = phase(x)² in every commutative ring in which `q_i = 0`, for every secret -/
+theorem ckksSquare_phase : type_of% @HC.ckksSquare_phase := @HC.ckksSquare_phase
+
+/-- S2 (BGV): success on canonical BGV ciphertexts of size ≤ 8 with unit factor; result canonical, factor cf² mod t (a unit), polynomial
+    part = the dyadic square -/
+theorem bgvSquare_spec : type_of% @HC.bgvSquare_spec := @HC.bgvSquare_spec
+
+theorem bgvSquare_phase : type_of% @HC.bgvSquare_phase := @HC.bgvSquare_phase
+
+theorem bgvSquare_cf : type_of% @HC.bgvSquare_cf := @HC.bgvSquare_cf
+
+/-- refusals: coefficient form; more than 8 polynomials (result size > 16), whatever the data are -/
+theorem bgvSquare_refuse : type_of% @HC.bgvSquare_refuse := @HC.bgvSquare_refuse
+theorem bgvSquare_refuse_size : type_of% @HC.bgvSquare_refuse_size := @HC.bgvSquare_refuse_size
+theorem ckksSquare_refuse : type_of% @HC.ckksSquare_refuse := @HC.ckksSquare_refuse
+theorem ckksSquare_refuse_size : type_of% @HC.ckksSquare_refuse_size := @HC.ckksSquare_refuse_size
+
+/-- non-vacuity: the fast path (size 2 → 3, factor 2·2 mod 5 = 4) and the fallback (size 3 → 5) on the example BGV level -/
+theorem bgvSquare_witness_fast : type_of% @HC.c02s_witness_fast := @HC.c02s_witness_fast
+theorem bgvSquare_witness_fallback : type_of% @HC.c02s_witness_fallback := @HC.c02s_witness_fallback
 
 /-! ### BEHZ `bfvMultiply` of the model end to end: totality and shape for all sizes, exact integer semantics per coefficient (one alpha < |q| per coefficient), ring-level phase identity; constants derived from RNSTool.new
     (statements, hypothesis bundles and non-vacuity instances: Heathcliff/Proofs/C02W.lean, section "Property theorems") -/
